@@ -155,8 +155,10 @@ def run_one(prop, tier, seed):
         print(f"    observed: {str(core.jsonable(v.observed))[:300]}")
         rc = 1
     if flaky:
-        sys.stderr.write(f"HARNESS-ERROR: counterexample(s) did not replay deterministically: {flaky}\n")
-        return 2
+        # The enumeration itself is deterministic; a counterexample that does not reproduce when its single case is replayed
+        # in isolation depends on calls made earlier in the same process (module-level state of the library).  It is reported
+        # as a violation all the same - the artefact says so.
+        print(f"[{prop}] note: not reproducible in isolation (depends on earlier calls in the same process): {flaky}")
     if goal_fail:
         sys.stderr.write(f"HARNESS-ERROR: coverage goals missed (exploration vacuous?): {goal_fail}\n")
         return 2
